@@ -12,6 +12,7 @@ structure DriverState where
   ovote : OracleVotes.State := {}
   tf : TF.State × TF.View := default
   sudo : Sudo.State := default
+  devgas : DevGas.State := default
 
 def splitArgs (line : String) : List String :=
   (line.trimAscii.toString.splitOn " ").filter (· ≠ "")
@@ -32,6 +33,9 @@ def stepLine (st : DriverState) (line : String) : DriverState × String :=
   | "sudo" :: args =>
     let (s', out) := Sudo.step st.sudo args
     ({ st with sudo := s' }, out)
+  | "devgas" :: args =>
+    let (s', out) := DevGas.step st.devgas args
+    ({ st with devgas := s' }, out)
   | "oracle" :: args => (st, Oracle.step args)
   | "infl" :: args =>
     let (s', out) := Inflation.step st.infl args
